@@ -415,6 +415,8 @@ each block is:
     -- If the type is VALTYPE_ENC_FLOAT64 or VALTYPE_ENC_INT64 there's 8 bytes
   - 2 bytes for the number of matching TSIDs; call this numMatchingTSIDs
   - numMatchingTSIDs 8-byte numbers, each representing a TSID satisfying this (metric, key, value) combination
+
+A tag value with more than 65535 matching TSIDs has several consecutive blocks.
 */
 func (tree *TagTree) encodeTagsTree() ([]byte, error) {
 	// metaInfo bytes: [metricBytes-uint32][[mName1-uint64][msOff-uint32][meOff-uint32]..]
@@ -430,6 +432,7 @@ func (tree *TagTree) encodeTagsTree() ([]byte, error) {
 		tagBuf := new(bytes.Buffer)
 		id := uint32(0)
 		for _, tInfo := range tagInfo {
+			entryStart := tagBuf.Len()
 			if _, err := tagBuf.Write(utils.Uint64ToBytesLittleEndian(tInfo.tagHashValue)); err != nil {
 				log.Errorf("TagTree.encodeTagsTree: Failed to write hash value %v to tag tree %v. Error: %v", tInfo.tagHashValue, tree.name, err)
 				return nil, err
@@ -491,23 +494,36 @@ func (tree *TagTree) encodeTagsTree() ([]byte, error) {
 				log.Errorf("TagTree.encodeTagsTree: %v", err)
 				return nil, err
 			}
-			numMatchingTSIDs := len(tInfo.matchingtsids)
-			if numMatchingTSIDs > math.MaxUint16 {
-				log.Errorf("TagTree.encodeTagsTree: Number of matching TSIDs (%v) exceeds maximum allowed value (%v) for tag tree %v",
-					numMatchingTSIDs, math.MaxUint16, tree.name)
-			}
-			if _, err := tagBuf.Write(utils.Uint16ToBytesLittleEndian(uint16(numMatchingTSIDs))); err != nil {
-				log.Errorf("TagTree.encodeTagsTree: Failed to write number of matching TSIDs %v to buffer for tag tree %v. Error: %v",
-					numMatchingTSIDs, tree.name, err)
-				return nil, err
-			}
-			id += 2
-			for _, tsid := range tInfo.matchingtsids {
-				if _, err := tagBuf.Write(utils.Uint64ToBytesLittleEndian(tsid)); err != nil {
-					log.Errorf("TagTree.encodeTagsTree: Failed to write TSID %v to buffer for tag tree %v. Error: %v", tsid, tree.name, err)
+			// The number of TSIDs is stored in 16 bits: a value with more TSIDs is written as
+			// several consecutive blocks that repeat the hashed value, the type and the value.
+			header := append([]byte(nil), tagBuf.Bytes()[entryStart:]...)
+			remainingTSIDs := tInfo.matchingtsids
+			for firstBlock := true; firstBlock || len(remainingTSIDs) > 0; firstBlock = false {
+				if !firstBlock {
+					if _, err := tagBuf.Write(header); err != nil {
+						log.Errorf("TagTree.encodeTagsTree: Failed to write tag value %v to buffer for tag tree %v. Error: %v", tInfo.tagValue, tree.name, err)
+						return nil, err
+					}
+					id += uint32(len(header))
+				}
+				numMatchingTSIDs := len(remainingTSIDs)
+				if numMatchingTSIDs > math.MaxUint16 {
+					numMatchingTSIDs = math.MaxUint16
+				}
+				if _, err := tagBuf.Write(utils.Uint16ToBytesLittleEndian(uint16(numMatchingTSIDs))); err != nil {
+					log.Errorf("TagTree.encodeTagsTree: Failed to write number of matching TSIDs %v to buffer for tag tree %v. Error: %v",
+						numMatchingTSIDs, tree.name, err)
 					return nil, err
 				}
-				id += 8
+				id += 2
+				for _, tsid := range remainingTSIDs[:numMatchingTSIDs] {
+					if _, err := tagBuf.Write(utils.Uint64ToBytesLittleEndian(tsid)); err != nil {
+						log.Errorf("TagTree.encodeTagsTree: Failed to write TSID %v to buffer for tag tree %v. Error: %v", tsid, tree.name, err)
+						return nil, err
+					}
+					id += 8
+				}
+				remainingTSIDs = remainingTSIDs[numMatchingTSIDs:]
 			}
 		}
 		utils.Uint64ToBytesLittleEndianInplace(hashedMName, metadataBuf[idx:])
